@@ -23,7 +23,7 @@ Theorem C17_timer_step :
   forall (c : cfg) (e : ep),
     e_fst e = Waiting -> fl_retransmit (e_flight e) = true ->
     let e' := fst (on_timer c e) in
-    e_interval e' = cap60 (if c_backoff c then (2 * e_interval e)%N else e_interval e) /\
+    e_interval e' = next_interval (c_backoff c) (e_interval e) /\
     e_timer e' = (e_timer e + e_interval e')%N /\
     e_flight e' = e_flight e /\ e_fst e' = Waiting /\
     snd (on_timer c e) = fl_lookup (e_flight e) (c_fl c).
@@ -60,15 +60,32 @@ Theorem C17_finished_silent_on_timer : forall (c : cfg) (e : ep), e_fst e = Fini
 Proof. exact finished_silent_on_timer. Qed.
 Print Assumptions C17_finished_silent_on_timer.
 
-(* ... and re-sends its final flight only in response to handshake data from the peer, and only
-   if it was the sender of the last flight *)
+(* ... and re-sends its final flight only in response to the peer's RETRANSMISSION (handshake data the
+   peer has sent before; F65), and only if it was the sender of the last flight *)
 Theorem C17_finished_resend_rule :
   forall (c : cfg) (e : ep) (retr : bool) (now : N),
     e_fst e = Finished ->
     fst (on_event c e retr now) = e /\
-    snd (on_event c e retr now) = if fl_last_send (e_flight e) then fl_lookup (e_flight e) (c_fl c) else [].
+    snd (on_event c e retr now) =
+      if fl_last_send (e_flight e) && retr then fl_lookup (e_flight e) (c_fl c) else [].
 Proof. exact finished_resend_rule. Qed.
 Print Assumptions C17_finished_resend_rule.
+
+Theorem C17_finished_silent_on_new_data :
+  forall (c : cfg) (e : ep) (now : N), e_fst e = Finished -> on_event c e false now = (e, []).
+Proof. exact finished_silent_on_new_data. Qed.
+Print Assumptions C17_finished_silent_on_new_data.
+
+(* the interval law for ANY configured interval, also above the cap or beyond what doubling can
+   represent (F63, F64): it never decreases, and is constant without backoff or from the cap upwards *)
+Theorem C17_interval_law_any :
+  forall (c : cfg) (e : ep) (k : nat),
+    e_fst e = Waiting -> fl_retransmit (e_flight e) = true ->
+    let e' := timeouts k c e in
+    (e_interval e <= e_interval e')%N /\
+    (c_backoff c = false \/ (60000 <= e_interval e)%N -> e_interval e' = e_interval e).
+Proof. exact interval_law_any. Qed.
+Print Assumptions C17_interval_law_any.
 
 (* no storms: whatever the peer sends - new data, stale flights, anything, for ever - one received
    datagram makes an endpoint emit at most one flight, and so does one timer expiry *)
